@@ -202,9 +202,9 @@ struct VmWorld : HookSink {
   void validate_program() {
     const auto &c = prog.code;
     auto fail = [&](const std::string &m) { ctx.check(false, "C03", "static_validator", m); };
-    if (c.empty()) { fail("empty program"); return; }
+    if (c.size() == 0) { fail("empty program"); return; }
     if (c[0].op != OpCode::PREPARE_EXEC) fail("program does not begin by creating the root frame");
-    if (c.back().op != OpCode::HALT) fail("program does not end in HALT");
+    if (c[c.size() - 1].op != OpCode::HALT) fail("program does not end in HALT");
     int n = (int)c.size();
     // routine regions: JMP over ... RET at top level
     std::vector<int> region(n, -1);  // -1 root
@@ -366,6 +366,7 @@ struct VmWorld : HookSink {
     int rank = 0;
     const auto &code = prog.code;
     for (size_t n = 0; n < budget; n++) {
+      if ((n & 1023) == 0) bump_progress();
       if (!check_decode(g)) { G.unsafe = true; ctx.stats.inc("golden_unsafe"); break; }
       int pc = VerifAccess::ip(g);
       if (code[pc].op == OpCode::HALT) { G.finished = true; break; }
@@ -876,7 +877,7 @@ Plan gen_vm_plan(const std::string &prop, Rng &rng, long long sub, const std::st
   gp.jump_into_loop = rng.chance(1, 3) ? 35 : 0;
   gp.locality = rng.chance(1, 2) ? (int)rng.range(20, 60) : 0;
   unsigned macros = 0;
-  if (rng.chance(1, 3)) macros = (unsigned)rng.below(16);
+  if (rng.chance(1, 3)) macros = ((unsigned)rng.below(16) | (rng.chance(1, 3) ? (unsigned)MF_TWICE : 0u) | (rng.chance(1, 3) ? (unsigned)MF_ARITH : 0u));
   gp.macros = macros;
   Layout lay;
   lay.seed = rng.next();
@@ -892,7 +893,7 @@ Plan gen_vm_plan(const std::string &prop, Rng &rng, long long sub, const std::st
 
   std::string mode = "history";
   if (prop == "C01") {
-    if (rng.chance(1, 2)) { gp.macros = (unsigned)rng.range(1, 15); }
+    if (rng.chance(1, 2)) { gp.macros = (unsigned)rng.range(1, 15) | (rng.chance(1, 3) ? (unsigned)MF_TWICE : 0u) | (rng.chance(1, 3) ? (unsigned)MF_ARITH : 0u); }
     allow_reset = rng.chance(1, 3);
     mode = "to_end";
   } else if (prop == "C03") {
